@@ -172,6 +172,7 @@ def declcommon (v : View) (f : Form) : Except Err Ent :=
         if p.link ≠ .none then
           if p.kind ≠ f.kind then .error .differentKind
           else if p.link ≠ l then .error .differentLinkage
+          else if f.kind = .obj ∧ (p.dur = .thread) ≠ f.flag then .error .storageDuration
           else if f.asm.isSome ∧ p.asm ≠ f.asm then .error .differentAsm
           else .ok (mkEnt f.kind l (if f.asm.isSome then f.asm else p.asm))
         else .ok (mkEnt f.kind l f.asm)
